@@ -343,8 +343,11 @@ def run_case(case):
             pairs += [(po.r0, leaf.r0), (po.r1, leaf.r1)]
         else:
             pairs += [(po.x2, leaf.p2[0]), (po.y2, leaf.p2[1])]
+        # fontTools nudges a radial gradient's start circle so that it stays inside the end circle after rounding
+        # (round_start_circle_stable_containment): small, deliberate, not a wrap
+        lim = 3.0 if isinstance(leaf, pm.PaintRadialGradient) else 1.0
         for dec, want in pairs:
-            if abs(dec - want) > 1.0 + 1e-6:  # the compiler may round or truncate to the integer field; a wrap / clamp is far beyond that
+            if abs(dec - want) > lim + 1e-6:  # the compiler may round or truncate to the integer field; a wrap / clamp is far beyond that
                 res["violations"].append({"what": f"gradient field decompiles to {dec}, requested {want}: silently wrapped / clamped", "affine": list(t)})
                 break
 
